@@ -1,6 +1,8 @@
 import DirectVerif.Gen.C08
 import DirectVerif.Model.Pipeline
 import DirectVerif.Lemmas.C08NF
+import DirectVerif.Model.PipelinePrePost
+import DirectVerif.Model.PipelineTables
 /-!
 # Bridge C08 — the stage table translated from `/repo` equals the hand-written builder
 
@@ -56,5 +58,61 @@ theorem program_eq (c : Config) : (Gen.C08.build c).flatMap Gen.C08.compile = pr
   congr 1
   funext s
   exact compile_eq s
+
+/-! ## phase 3 — the second builder pair, signatures, defaults, wrappers, call forms -/
+
+/-- `NormalizeModule`'s default key list (what the post-transform normalises: the target and the body-coil image
+too) -/
+theorem default_norm_keys_eq : Gen.C08.default_norm_keys = defaultNormKeys := by decide
+
+/-- `build_pre_mri_transforms` / `build_post_mri_transforms`: literally the list normal forms of the model (`rfl`);
+`Lemmas/C08PrePost.lean` relates the normal forms to `buildPre` / `buildPost` -/
+theorem build_pre_nf (c : Config) : Gen.C08.build_pre c = buildPreNF c := rfl
+theorem build_post_nf (c : Config) : Gen.C08.build_post c = buildPostNF c := rfl
+
+theorem build_pre_eq (c : Config) : Gen.C08.build_pre c = buildPre c :=
+  (build_pre_nf c).trans (buildPreNF_eq c).symm
+theorem build_post_eq (c : Config) : Gen.C08.build_post c = buildPost c :=
+  (build_post_nf c).trans (buildPostNF_eq c).symm
+
+/-- the composed pre ++ post program the theorems of `Props/C08.lean` are about -/
+theorem program_prepost_eq (c : Config) :
+    (Gen.C08.build_pre c ++ Gen.C08.build_post c).flatMap Gen.C08.compile = program (buildPrePost c) := by
+  rw [build_pre_eq, build_post_eq]
+  unfold program buildPrePost
+  congr 1
+  funext s
+  exact compile_eq s
+
+/-- **every parameter of the four builders is the one the model knows, classified as the model classifies it**: a new
+parameter, a renamed or re-ordered one changes the generated table -/
+theorem supervised_params_eq : Gen.C08.supervised_params = supervisedParams := by decide
+theorem outer_params_eq : Gen.C08.outer_params = outerParams := by decide
+theorem pre_params_eq : Gen.C08.pre_params = preParams := by decide
+theorem post_params_eq : Gen.C08.post_params = postParams := by decide
+theorem params_classified :
+    Gen.C08.supervised_params.ok && Gen.C08.outer_params.ok && Gen.C08.pre_params.ok && Gen.C08.post_params.ok = true := by
+  decide
+
+/-- **the default arguments denote the default configuration of the model** (`use_seed=True`, `padding_eps > 0`,
+`scale_percentile` set, scaling on the masked k-space, `delete_kspace=True`, supervised, …) -/
+theorem default_config_eq : Gen.C08.default_config = ({} : Config) := by decide
+theorem default_config_supervised_eq : Gen.C08.default_config_supervised = ({} : Config) := by decide
+theorem default_config_prepost_eq : Gen.C08.default_config_prepost = ({} : Config) := by decide
+
+/-- every `ModuleWrapper` alias the model knows exists with the modelled module class and `toggle_dims` (further
+aliases may be added), and all aliases obey the batching rule -/
+theorem wrappers_cover : wrapperTable.all (fun r => Gen.C08.wrappers.contains r) = true := by decide
+theorem wrappers_ok : Gen.C08.wrappers.ok = true := by decide
+
+/-- the builders compose the classes in the modelled form: through the `ModuleWrapper` alias in the pipelines that run
+on un-batched samples, raw modules in the batched post-transform -/
+theorem stage_forms_supervised_eq : Gen.C08.stage_forms_supervised = supervisedForms := by decide
+theorem stage_forms_outer_eq : Gen.C08.stage_forms_outer = outerForms := by decide
+theorem stage_forms_pre_eq : Gen.C08.stage_forms_pre = preForms := by decide
+theorem stage_forms_post_eq : Gen.C08.stage_forms_post = postForms := by decide
+theorem stage_forms_unbatched_ok :
+    Gen.C08.stage_forms_supervised.unbatchedOk && Gen.C08.stage_forms_outer.unbatchedOk
+      && Gen.C08.stage_forms_pre.unbatchedOk = true := by decide
 
 end DirectVerif.Bridge.C08
